@@ -1,6 +1,6 @@
 (** C07 - expect completes exactly when the screen matches, and keeps polling until then. *)
 From Coq Require Import ZArith List Bool PrimFloat.
-From VD Require Import Base.Bytes Model.Image Model.Expect Proofs.ExpectP.
+From VD Require Import Base.Bytes Model.Image Model.Expect Proofs.ExpectP Gen.ExpectOps Proofs.ExpectTie.
 Import ListNotations.
 Open Scope Z_scope.
 
@@ -69,3 +69,15 @@ Example C07_example :
   expect_matches (Some im) (region_box 1 0 1 1) (histogram [[(4, 5, 6)]]) zero = true /\
   expect_matches (Some im) (region_box 0 0 1 1) (histogram [[(4, 5, 6)]]) zero = false.
 Proof. vm_compute. split; reflexivity. Qed.
+
+(** The decision of the model is the source's own: [gen_expect_compare] is regenerated from the text of _expectCompare on
+    every run (gen/expect.py: the test on the screen, the length guard, the sum of squared bin differences, the binary64
+    `math.sqrt(sum_ / len(hist)) <= maxrms`, the early return, the incremental flag of the request written otherwise;
+    the tail - a fresh Deferred on itself, exactly one update request - is pinned).  Crop and histogram are Pillow's. *)
+Theorem C07_compare_is_source : forall screen x0 y0 x1 y1 expected maxrms,
+  let has := match screen with Some _ => true | None => false end in
+  let hist := match screen with Some im => histogram (crop_rows im x0 y0 x1 y1) | None => [] end in
+  gen_expect_compare has hist expected maxrms =
+  if expect_matches screen (x0, y0, x1, y1) expected maxrms then (true, false) else (false, has).
+Proof. exact expect_compare_is_source. Qed.
+Print Assumptions C07_compare_is_source.
